@@ -11,8 +11,10 @@ package models
 
 import (
 	"fmt"
+	"runtime"
 	"sort"
 	"strings"
+	"sync"
 	"testing"
 
 	"github.com/internetarchive/Zeno/internal/pkg/veriflib"
@@ -671,4 +673,109 @@ func c11Enumerate(t *testing.T, p c11Params) {
 		frontier = next
 	}
 	veriflib.Class("C11/exhaustive", fmt.Sprintf("bounds:alphabet=%d,max_nodes=%d,passes=%d,calm=%v", p.Alphabet, p.MaxNodes, p.MaxPasses, p.Calm))
+}
+
+// ---------------------------------------------------------------------------------------------
+// facet: concurrent AddChild / RemoveChild on one parent (the links are maintained under childrenMu)
+//
+// Operations on distinct children commute, so whatever the interleaving the outcome is known: the children are the
+// initial ones minus the removed ones plus the added ones, each once, each pointing back at the parent.
+
+type c11ConcCase struct {
+	Initial int   `json:"initial"`         // children before the burst
+	Remove  []int `json:"remove"`          // indices (into the initial children) removed concurrently
+	Add     int   `json:"add"`             // children added concurrently
+	Rounds  int   `json:"rounds"`          // fresh parents the burst is repeated on
+	Procs   int   `json:"procs,omitempty"` // 0 = leave GOMAXPROCS alone
+}
+
+func propC11Concurrent(t veriflib.TB, c c11ConcCase) {
+	const facet = "C11/concurrent"
+	if c.Procs > 0 {
+		defer runtime.GOMAXPROCS(runtime.GOMAXPROCS(c.Procs))
+	}
+	for round := 0; round < c.Rounds; round++ {
+		parent := NewItem("seed", c11URL(99), "")
+		kids := make([]*Item, c.Initial)
+		for i := range kids {
+			kids[i] = NewItem(fmt.Sprintf("k%04d", i), c11URL(i%7), "")
+			if err := parent.AddChild(kids[i], ItemGotChildren); err != nil {
+				t.Fatalf("harness: AddChild: %v", err)
+			}
+		}
+		removed := map[string]bool{}
+		start := make(chan struct{})
+		var wg sync.WaitGroup
+		for _, ri := range c.Remove {
+			k := kids[ri%c.Initial]
+			if removed[k.id] {
+				continue
+			}
+			removed[k.id] = true
+			wg.Add(1)
+			go func() {
+				defer wg.Done()
+				<-start
+				parent.RemoveChild(k)
+			}()
+		}
+		added := map[string]bool{}
+		for i := 0; i < c.Add; i++ {
+			n := NewItem(fmt.Sprintf("a%04d", i), c11URL(i%7), "")
+			added[n.id] = true
+			wg.Add(1)
+			go func() {
+				defer wg.Done()
+				<-start
+				if err := parent.AddChild(n, ItemGotChildren); err != nil {
+					panic("harness: AddChild: " + err.Error())
+				}
+			}()
+		}
+		close(start)
+		wg.Wait()
+		seen := map[string]int{}
+		for _, ch := range parent.children {
+			seen[ch.id]++
+			if ch.parent != parent {
+				veriflib.Fail(t, "C11", facet, c, nil, "round %d: child %s is listed under the parent but its parent pointer is %v", round, ch.id, ch.parent)
+			}
+		}
+		for _, k := range kids {
+			switch {
+			case removed[k.id] && seen[k.id] > 0:
+				veriflib.Fail(t, "C11", facet, c, nil, "round %d: %s was removed with RemoveChild (concurrently with other removals/additions on the same parent) but is still a child (%d children, %d expected)",
+					round, k.id, len(parent.children), c.Initial-len(removed)+c.Add)
+			case !removed[k.id] && seen[k.id] != 1:
+				veriflib.Fail(t, "C11", facet, c, nil, "round %d: %s was never removed but is listed %d time(s) after concurrent removals/additions of its siblings (%d children, %d expected)",
+					round, k.id, seen[k.id], len(parent.children), c.Initial-len(removed)+c.Add)
+			}
+		}
+		for id := range added {
+			if seen[id] != 1 {
+				veriflib.Fail(t, "C11", facet, c, nil, "round %d: %s was added with AddChild but is listed %d time(s)", round, id, seen[id])
+			}
+		}
+		if err := parent.CheckConsistency(); err != nil {
+			veriflib.Fail(t, "C11", facet, c, nil, "round %d: CheckConsistency after the burst: %v", round, err)
+		}
+	}
+	veriflib.Record(facet, veriflib.JSON(c), len(c.Remove) >= 2 && c.Rounds >= 1, []string{fmt.Sprintf("removers:%d", min(len(c.Remove), 8)), fmt.Sprintf("adders:%d", min(c.Add, 8)), fmt.Sprintf("procs:%d", c.Procs)}, func() any { return c })
+}
+
+func TestVerif_C11_Concurrent(t *testing.T) {
+	defer veriflib.Flush()
+	var rc c11ConcCase
+	if veriflib.ReplayCase("C11/concurrent", &rc) {
+		propC11Concurrent(t, rc)
+		return
+	} else if veriflib.Replaying() {
+		t.Skip()
+	}
+	rapid.Check(t, func(t *rapid.T) {
+		c := c11ConcCase{Initial: rapid.IntRange(2, 120).Draw(t, "initial"), Add: rapid.IntRange(0, 30).Draw(t, "add"), Rounds: rapid.IntRange(1, 6).Draw(t, "rounds"),
+			Procs: []int{0, 0, 1, 2, 4}[rapid.IntRange(0, 4).Draw(t, "procs")]}
+		c.Remove = rapid.SliceOfN(rapid.IntRange(0, 119), 2, 80).Draw(t, "remove")
+		veriflib.Guard("C11", "C11/concurrent", c, func() { propC11Concurrent(t, c) })
+	})
 }
